@@ -21,6 +21,12 @@ STD_ENUMS = {
     'Out2': ['A', 'B'],                             # ws/shims/tokio select! model
 }
 
+FOREIGN_ROOTS = ('std::', 'core::', 'alloc::', 'nom::', 'tokio::', 'bytes::', 'tracing::', 'ahash::')
+def is_foreign_type(t):
+    while t is not None and t[0] in ('ref', 'ptr'):
+        t = t[2]
+    return t is not None and t[0] == 'path' and t[1].startswith(FOREIGN_ROOTS)
+
 def rtypes_str(t):
     return type_str(t) if t is not None else ''
 
@@ -321,6 +327,8 @@ class Program:
     def find_impl(self, trait, method, self_t, trait_args=()):
         """first repo impl of `trait::method` (trait None = inherent) whose Self pattern unifies with self_t"""
         out = []
+        if is_foreign_type(self_t):
+            return None
         for e in self.impl_methods.get((trait, method), ()):
             if e.self_pat is None:
                 continue
